@@ -1,7 +1,7 @@
 #!/bin/bash
 # dev helper: run_seq.sh <suite> <tier>  -> gen, TLC, replay
 set -e
-S=$1; T=${2:-quick}; W=/verif/cache/work/$S
+S=$1; T=${2:-quick}; W=${VERIF_WORK:-/verif/cache/work}/$S
 mkdir -p $W; cd $W; rm -f *.tla
 cp /verif/spec/*.tla . ; python3 /verif/tools/gen.py $S $T .
 N=$(python3 -c "import json;print(len(json.load(open('cases.json'))['cases']))")
